@@ -73,6 +73,7 @@ type twin struct {
 	signed  []signedUse
 	// the twins differ: every later comparison would only repeat the first difference, the sequence is abandoned
 	diverged bool
+	side     *Sidecar
 }
 
 type signedUse struct {
@@ -442,6 +443,27 @@ func expectedLogs(evs []nevent, caller []byte) (out []elog) {
 	return
 }
 
+// checkNativeHypotheses checks, on what the native modules really did, the hypotheses under which the conditional
+// theorems of Properties/C11.v speak (they are statements about cosmos-sdk, not about /repo): every executed message is
+// announced by at least one delegate / unbond / redelegate / withdraw_rewards event (C11_twin_histories_agree,
+// C11_twin_logs_match_events), and such events name the message's own delegator (C11_logs_for_caller).
+func (tw *twin) checkNativeHypotheses(side *Sidecar, delegator sdk.AccAddress, evs []nevent, what string) {
+	counted := 0
+	for _, e := range evs {
+		if e.typ == "other" {
+			continue
+		}
+		counted++
+		if e.typ != "redelegate" && !bytes.Equal(e.del, delegator) {
+			side.Hit("C11/staking/native-hypothesis-violated/event-names-other-delegator", fmt.Sprintf("%s by %x emitted a %s event for delegator %x", what, delegator.Bytes(), e.typ, e.del), nil)
+		}
+	}
+	if counted == 0 {
+		side.Hit("C11/staking/native-hypothesis-violated/message-without-event", what+" succeeded without any delegate / unbond / redelegate / withdraw_rewards event", nil)
+	}
+	side.Count("native-hypotheses-checked")
+}
+
 // ------------------------------------------------------------------ native execution (chain B's modules)
 
 type scriptEntry struct {
@@ -496,6 +518,9 @@ func (tw *twin) execNative(c *Chain, ctx sdk.Context, m sdk.Msg, caller sdk.AccA
 	en.ok = true
 	for _, ev := range cctx.EventManager().ABCIEvents() {
 		en.evs = append(en.evs, tw.parseEvent(c, ev, true))
+	}
+	if tw.side != nil {
+		tw.checkNativeHypotheses(tw.side, caller, en.evs, fmt.Sprintf("%T", m))
 	}
 	en.bal = c.App.BankKeeper.GetBalance(ctx, caller, tw.bond).Amount.BigInt()
 	return en
@@ -1047,6 +1072,7 @@ func TestDriverStaking(t *testing.T) {
 	for seq := 0; seq < nSeq; seq++ {
 		r := rng.Fork(uint64(seq))
 		tw := newTwin(t)
+		tw.side = side
 		for step := 0; step < steps; step++ {
 			k := r.Intn(100)
 			// a duplicate validator of the suite (same consensus key, see RepairConsAddrIndex) that was delegated to and
@@ -1085,9 +1111,30 @@ func TestDriverStaking(t *testing.T) {
 					m = disttypes.NewMsgWithdrawDelegatorReward(a.GetCosmosAddress().String(), tw.valStr(tw.B, v))
 				}
 				var codes []uint32
+				preB := map[string]string{}
+				qb := tw.B.QueryCtx()
+				for _, x := range tw.tracked {
+					preB[x.GetEthAddress().Hex()] = tw.acctAt(tw.B, qb, x.GetCosmosAddress(), tw.B.Time)
+				}
 				tw.both(func(c *Chain) {
-					codes = append(codes, c.C11SendCosmos(a, txGas, m).Code)
+					res := c.C11SendCosmos(a, txGas, m)
+					codes = append(codes, res.Code)
+					if c == tw.B && res.Code == 0 {
+						var evs []nevent
+						for _, ev := range res.Events {
+							evs = append(evs, tw.parseEvent(tw.B, ev, false))
+						}
+						tw.checkNativeHypotheses(side, a.GetCosmosAddress(), evs, fmt.Sprintf("%T", m))
+					}
 				})
+				// hypothesis of C11_third_parties_untouched: a native message changes balance / delegations / entries of
+				// nobody but its own delegator
+				qb = tw.B.QueryCtx()
+				for _, x := range tw.tracked {
+					if x != a && tw.acct(tw.B, qb, x.GetCosmosAddress()) != preB[x.GetEthAddress().Hex()] {
+						side.Hit("C11/staking/native-hypothesis-violated/message-changed-third-party", fmt.Sprintf("native %T by %s changed the account state of %s", m, a.GetEthAddress().Hex(), x.GetEthAddress().Hex()), nil)
+					}
+				}
 				side.Count(fmt.Sprintf("step:native:%T:ok=%v", m, codes[0] == 0))
 				if codes[0] != codes[1] {
 					side.Hit("C11/staking/twin-harness-native-message-diverged", "the same native message had different outcomes on the twin chains", nil)
